@@ -88,10 +88,13 @@ def oracle(sc, o):
         elif depth != 0:
             bad.append((f"device-left-staged:staged-twice:{kind}", f"{d}: staged {deepest} deep, {depth} staging(s) not undone (ledger of {d}: {[x[1] for x in led if x[0] == d]})"))
         # motion: a stop after the last set
-        idx_set = [i for i, e in enumerate(led) if e[0] == d and e[1] == "set" and e[2] != "raise"]
+        # (a set() call that raised counts too: the device may have started to move before it raised, which is why
+        #  the engine registers the device before calling set())
+        idx_set = [i for i, e in enumerate(led) if e[0] == d and e[1] == "set"]
         if idx_set:
             if not any(e[0] == d and e[1] == "stop" for e in led[idx_set[-1] + 1 :]):
-                bad.append((f"moved-device-not-stopped:{kind}", f"{d}: no stop() after its last set() (ledger of {d}: {[x[1] for x in led if x[0] == d]})"))
+                raised = ":set-raised" if led[idx_set[-1]][2] == "raise" else ""
+                bad.append((f"moved-device-not-stopped:{kind}{raised}", f"{d}: no stop() after its last set() (ledger of {d}: {[x[1] for x in led if x[0] == d]})"))
     # "as many times": the engine's own unstage calls (those not answering an `unstage` message) only go to devices
     # that are staged at that moment (successful stage not yet followed by a successful unstage)
     T = o["ticks"]
